@@ -18,6 +18,7 @@ func init() {
 			{"LOAD-FILTER", 6, ruleLoadFilter},
 			{"LOAD-KAHN", 6, ruleLoadKahn},
 			{"LOAD-CYCLE", 1, ruleLoadCycle},
+			{"LOAD-SORT", 3, ruleLoadSort},
 		},
 	})
 	register(&propDef{
@@ -35,6 +36,7 @@ func init() {
 			{"API-ACCESSOR", 8, ruleApiAccessor},
 			{"PAN-ERRDROP", 3, ruleErrDropReentry},
 			{"FUNC-RESULT", 1, ruleFuncResult},
+			{"FUNC-ISOLATED", 2, ruleFuncIsolated},
 		},
 	})
 	register(&propDef{
@@ -633,6 +635,17 @@ func ruleLoadFilter(c *Ctx, r *R) {
 			}
 			return true
 		})
+		trimmed := false
+		for _, p := range c.pathsOf("checkConstraint") {
+			for _, e := range p.Eff {
+				if e.Kind == "call" && e.Value != nil && strings.HasSuffix(e.Value.Name, "constraint.IsGoBuild") && len(e.Value.Args) == 1 {
+					if strings.Contains(e.Value.Args[0].String(), "strings.TrimSpace(s)") {
+						trimmed = true
+					}
+				}
+			}
+		}
+		r.check(trimmed, "constraint line", c.Pos(cf), "the constraint is looked for on the first non-blank line", "checkConstraint no longer skips leading blank lines/indentation before looking for //go:build: a constraint that does not start at byte 0 is ignored and the file is loaded")
 		r.check(tagOK, "tag predicate", c.Pos(cf), `only the tag "goat" is set`, `the build-constraint evaluator's tag predicate is not exactly t == "goat"`)
 		r.check(noLineOK, "no constraint", c.Pos(cf), "a file without //go:build is included", "a file without a //go:build line is no longer included")
 	} else {
@@ -678,6 +691,35 @@ func ruleLoadKahn(c *Ctx, r *R) {
 		}
 		return true
 	})
+	// K0: every top-level token of the package is examined for imports (no early exit from the scan)
+	var scan *ast.RangeStmt
+	for _, st := range first.Body.List {
+		if rs, ok := st.(*ast.RangeStmt); ok && strings.HasSuffix(c.Src(rs.X), ".Tokens") {
+			scan = rs
+		}
+	}
+	if scan == nil {
+		r.fail("K0", c.Pos(first), "the discovery loop does not scan the package's top-level tokens for imports")
+	} else {
+		early := false
+		ast.Inspect(scan.Body, func(n ast.Node) bool {
+			switch x := n.(type) {
+			case *ast.ForStmt, *ast.RangeStmt, *ast.FuncLit:
+				return false
+			case *ast.BranchStmt:
+				if x.Tok == token.BREAK {
+					early = true
+				}
+			case *ast.ReturnStmt:
+				// returning an error is fine; a bare success return is not
+				if len(x.Results) == 2 && isIdent(x.Results[1], "nil") {
+					early = true
+				}
+			}
+			return true
+		})
+		r.check(!early, "K0", c.Pos(scan), "all top-level tokens are scanned for imports", "the import scan of loadImports stops before the end of the package's tokens: an import that follows another statement (as in an Eval snippet, which is not sorted) is never loaded")
+	}
 	r.check(pushed != "" && pushed == recorded, "K1", c.Pos(first), "the same import path is pushed on the worklist and recorded as a dependency ("+pushed+")",
 		fmt.Sprintf("loadImports pushes %q on the worklist but records %q in the dependency set: a dependency is loaded without being ordered before its importer (or vice versa)", pushed, recorded))
 	// K2: selection preceded by the emptiness test of the dependency set
@@ -792,4 +834,155 @@ func ruleLoadCycle(c *Ctx, r *R) {
 	why := c.selectionDrain(second)
 	r.check(why == "", "selection", c.Pos(second), "no selectable package -> error; the candidate list shrinks every iteration",
 		"the ordering loop of loadImports: "+why+" — with an import cycle it panics (slices.Delete with -1, nil tree) or spins instead of returning an error")
+}
+
+// ---- additional delegation / flow rules found necessary by seeded changes ----
+
+// LIT-DELEGATE (C13): literal decoders return what strconv returns for the token text.
+func ruleLitDelegate(c *Ctx, r *R) {
+	want := map[string][]string{
+		"token.Char":    {"strconv.UnquoteChar(t.Text[1:<+len(t.Text) -1>], 39)#0"},
+		"token.Unquote": {"strconv.Unquote(t.Text)#0"},
+		"token.Float64": {"strconv.ParseFloat(t.Text, 64)#0"},
+		"token.Int":     {"int(strconv.ParseInt(t.Text[2:_], 16, 0)#0)", "int(strconv.ParseInt(t.Text[1:_], 8, 0)#0)", "int(strconv.Atoi(t.Text)#0)"},
+	}
+	for _, fn := range sortedKeys(want) {
+		ps := c.pathsOf(fn, func(in *Interp) {
+			in.NoLin = false
+			in.NoReturn = func(o types.Object) bool { return o.Name() == "panicf" }
+		})
+		if ps == nil {
+			r.undecided(fn, "-", "not found")
+			continue
+		}
+		rets := map[string]bool{}
+		for _, p := range ps {
+			if p.Done == "return" && len(p.Ret) == 1 {
+				rets[p.Ret[0].String()] = true
+			}
+		}
+		good := len(rets) == len(want[fn])
+		for _, w := range want[fn] {
+			if !rets[w] {
+				good = false
+			}
+		}
+		r.check(good, fn, c.Pos(c.Func(fn)), "returns strconv's decoding of the token text", fmt.Sprintf("%s does not return strconv's own decoding of the literal text (returns %v, expected %v): escapes such as '\\xff' or \"\\377\" denote different bytes than in Go", fn, sortedKeys(rets), want[fn]))
+	}
+}
+
+// LOAD-SORT (C16): every tree loaded from files passes through treeSort before it is ordered/compiled.
+func ruleLoadSort(c *Ctx, r *R) {
+	n := 0
+	for _, name := range []string{"loadImports", "loadPackage", "loadFile"} {
+		fd := c.Func(name)
+		if fd == nil {
+			r.undecided(name, "-", "not found")
+			continue
+		}
+		ast.Inspect(fd.Body, func(m ast.Node) bool {
+			as, ok := m.(*ast.AssignStmt)
+			if !ok || len(as.Rhs) != 1 {
+				return true
+			}
+			call, ok := unparen(as.Rhs[0]).(*ast.CallExpr)
+			if !ok {
+				return true
+			}
+			cn := c.CalleeName(call)
+			if cn != "rawLoadPackage" && cn != "rawLoadFile" {
+				return true
+			}
+			n++
+			v := c.Src(as.Lhs[0])
+			// some later statement in the function: v = treeSort(v), before v is stored/passed on
+			sortedAt, usedAt := token.NoPos, token.NoPos
+			ast.Inspect(fd.Body, func(k ast.Node) bool {
+				switch x := k.(type) {
+				case *ast.AssignStmt:
+					if x.Pos() > as.End() && len(x.Rhs) == 1 {
+						if sc, ok := unparen(x.Rhs[0]).(*ast.CallExpr); ok && c.CalleeName(sc) == "treeSort" && len(sc.Args) == 1 && c.Src(sc.Args[0]) == v && c.Src(x.Lhs[0]) == v && !sortedAt.IsValid() {
+							sortedAt = x.Pos()
+						}
+						// stored into the package table
+						if ix, ok := unparen(x.Lhs[0]).(*ast.IndexExpr); ok && c.Src(ix.X) == "packages" && c.Src(x.Rhs[0]) == v && x.Pos() > as.End() && !usedAt.IsValid() {
+							usedAt = x.Pos()
+						}
+					}
+				case *ast.CallExpr:
+					if c.CalleeName(x) == "loadImports" && x.Pos() > as.End() && !usedAt.IsValid() {
+						for _, a := range x.Args {
+							if c.Src(a) == v {
+								usedAt = x.Pos()
+							}
+						}
+					}
+				}
+				return true
+			})
+			key := name + " <- " + cn
+			r.check(sortedAt.IsValid() && usedAt.IsValid() && sortedAt < usedAt, key, c.Pos(as), "sorted with treeSort before it is recorded / handed to loadImports",
+				fmt.Sprintf("%s: the tree returned by %s reaches the package list without passing through treeSort: declarations of that package run in source order, so a use that precedes its declaration fails", name, cn))
+			return true
+		})
+	}
+	if n == 0 {
+		r.undecided("loads", "-", "no rawLoadPackage/rawLoadFile call found")
+	}
+}
+
+// FUNC-ISOLATED (C19): the private VM of Func/run does not build its stack in the caller VM's stack.
+func ruleFuncIsolated(c *Ctx, r *R) {
+	for _, fn := range []string{"VM.Func", "VM.run"} {
+		fd := c.Func(fn)
+		if fd == nil {
+			r.undecided(fn, "-", "not found")
+			continue
+		}
+		recv := fd.Recv.List[0].Names[0].Name
+		found := false
+		ast.Inspect(fd.Body, func(n ast.Node) bool {
+			cl, ok := n.(*ast.CompositeLit)
+			if !ok || !isNamed(c.TypeOf(cl), "VM") {
+				return true
+			}
+			for _, el := range cl.Elts {
+				kv, ok := el.(*ast.KeyValueExpr)
+				if !ok || types.ExprString(kv.Key) != "stack" {
+					continue
+				}
+				found = true
+				aliases := false
+				ast.Inspect(kv.Value, func(m ast.Node) bool {
+					if sel, ok := m.(*ast.SelectorExpr); ok && sel.Sel.Name == "stack" && isIdent(sel.X, recv) {
+						aliases = true
+					}
+					if id, ok := m.(*ast.Ident); ok {
+						// a local built from the receiver's stack
+						if v, ok := c.Obj(id).(*types.Var); ok && !v.IsField() {
+							ast.Inspect(fd.Body, func(k ast.Node) bool {
+								if as, ok := k.(*ast.AssignStmt); ok {
+									for i, l := range as.Lhs {
+										if lid, ok := l.(*ast.Ident); ok && c.Obj(lid) == types.Object(v) && i < len(as.Rhs) {
+											if strings.Contains(nosp(c.Src(as.Rhs[i])), recv+".stack") {
+												aliases = true
+											}
+										}
+									}
+								}
+								return true
+							})
+						}
+					}
+					return true
+				})
+				r.check(!aliases, fn+" stack", c.Pos(kv), "the nested VM gets its own stack",
+					fn+" builds the nested VM's operand stack inside the calling VM's stack: the arguments a native callback received (which live in that spare capacity) are overwritten by a nested Call/Func")
+			}
+			return true
+		})
+		if !found {
+			r.undecided(fn+" stack", c.Pos(fd), "no VM literal with a stack field")
+		}
+	}
 }
